@@ -432,6 +432,8 @@ fn check_map(run: &mut Run, id: &str, src: &Beatmap, repro: &str, mods: &[(Strin
                     run.fail("oracle:mania-convert", "", &mid, format!("{name}: {e}"), repro.to_owned());
                 }
                 run.count(&format!("mania:keys-out:{}", out.cs));
+                // pattern generators: the traced conversion replayed by the model (MPT line)
+                crate::c19_mania::trace_map(run, &mid, src, gm, &out, repro);
                 run.count_n("mania:objects-out", out.hit_objects.len() as u64);
                 // target_columns: model fed with the accessor's answer and the map's rounded cs/od/mix
                 let snap_keys = rosu_pp::verif::mods_snapshot(gm).mania_keys;
@@ -493,6 +495,9 @@ pub fn run(tier: &str, seed: u64, only: Option<&str>) -> Run {
         }
         run.eval(Some("columns"));
     }
+
+    // pattern generators in isolation (MPH / MPP / MPE lines)
+    crate::c19_mania::isolated(&mut run, tier, seed, only);
 
     let n_cases = if thorough { 30000 } else { 2500 };
     for ci in 0..n_cases {
